@@ -11,15 +11,16 @@
    and norm_query is shown to change neither the results nor the string form.
 
    Domain.  NormDomain.c10_domain E re_ok q = gate (C07) && printable && reparsable && floats_stable:
-   the invariants of what Parser.parse builds.  C10_compiled_in_domain_partial shows that every
-   compiled query is in it up to the two float conditions floats_ok / floats_stable (the repr of a
-   float literal reads back, to a float with the same repr), which are boolean, extracted, and
-   evaluated by the correspondence on every compiled query of every run ("_partial": they are
-   not derived from "was parsed", because the model of repr(float) covers decimal literals of at
-   most 15 significant digits).  The statements that are false without those domain conditions
-   are kept as refutations at the end. *)
+   the invariants of what Parser.parse builds.  C10_compiled_in_domain shows that every compiled
+   query is in it (the float part: the model parser accepts a float literal only when it has at
+   most 15 significant digits and a normalised exponent within [-290, 300], and for those the
+   repr reads back as the very same float - C10_parsed_float_ok; literals outside that are
+   EUnsupported in the model, i.e. outside the theorems, and are checked on the implementation
+   alone).  The domain predicates are also extracted and evaluated by the correspondence on every
+   compiled query of every run.  The statements that are false without the domain conditions are
+   kept as refutations at the end. *)
 From JP Require Import Base Json Syntax Lex Parse Eval Serialize TokPrint Printable Reparsable Gate
-                       NormDomain NormProofs PrintParseProofs PrintLexProofs RoundTrip.
+                       NormDomain NormProofs FloatDomain PrintParseProofs PrintLexProofs RoundTrip.
 
 (* headline: in the default environment, the string form of a compiled query compiles, to a query
    that returns the same matches on every document and filter context, whose string form is the
@@ -27,14 +28,13 @@ From JP Require Import Base Json Syntax Lex Parse Eval Serialize TokPrint Printa
 Theorem C10_string_form :
   forall re_ok (text : ustr) (q : query) (t : ustr),
     compile default_env re_ok text = Ok q ->
-    floats_ok q = true -> floats_stable q = true ->
     query_text default_env q = Ok t ->
     exists q',
       compile default_env re_ok t = Ok q' /\
       (forall rf rs d ctx, compound_finditer default_env rf rs q' d ctx = compound_finditer default_env rf rs q d ctx) /\
       query_text default_env q' = Ok t /\
       c10_domain default_env re_ok q' = true.
-Proof. exact RoundTrip.string_form. Qed.
+Proof. exact RoundTrip.string_form_total. Qed.
 Print Assumptions C10_string_form.
 
 (* the string form of a query in the domain, as tokens, parses back to its normal form (any
@@ -94,15 +94,20 @@ Theorem C10_domain_stable :
 Proof. exact RoundTrip.domain_stable. Qed.
 Print Assumptions C10_domain_stable.
 
-(* every query the parser accepts is in the domain, up to the two float conditions *)
-Theorem C10_compiled_in_domain_partial :
+(* every query the parser accepts is in the domain (the parser only accepts float literals whose
+   repr reads back as the same float: C10_parsed_float_ok) *)
+Theorem C10_compiled_in_domain :
   forall (E : env) re_ok (text : ustr) (q : query),
     in_range (e_min_index E) (e_max_index E) 1%Z = true -> e_well_typed E = true ->
     compile E re_ok text = Ok q ->
-    floats_ok q = true -> floats_stable q = true ->
     c10_domain E re_ok q = true.
-Proof. exact RoundTrip.compiled_domain_partial. Qed.
-Print Assumptions C10_compiled_in_domain_partial.
+Proof. exact RoundTrip.compiled_domain. Qed.
+Print Assumptions C10_compiled_in_domain.
+
+Theorem C10_parsed_float_ok :
+  forall s n, parse_float_literal s = Ok (FFloat n) -> float_ok n = true /\ float_stable n = true.
+Proof. exact FloatDomain.parsed_float_ok. Qed.
+Print Assumptions C10_parsed_float_ok.
 
 (* the shape part of the domain is proved for every compiled query outright *)
 Theorem C10_compiled_reparsable :
